@@ -41,6 +41,27 @@ func (r *Run) decision(sym string) (Decision, bool) {
 			return d, true
 		}
 	}
+	// a method predicate may return (type, found) instead of a pointer that is nil when nothing was found: "…!=nil" is then
+	// the second result, and the pointee "*pred:…" the first
+	if strings.HasPrefix(sym, "B:pred:") && strings.HasSuffix(sym, "!=nil") {
+		alt := strings.TrimSuffix(sym, "!=nil") + "#1"
+		for _, cand := range []string{alt, tieRe.ReplaceAllString(alt, "[*]")} {
+			for _, d := range r.Decisions {
+				if d.Sym == cand {
+					return Decision{Sym: sym, Choice: d.Choice, N: 2, Fn: d.Fn}, true
+				}
+			}
+		}
+	}
+	if strings.HasPrefix(sym, "A:*pred:") {
+		if i := strings.LastIndex(sym, ":"); i > 8 {
+			alt := "A:pred:" + sym[len("A:*pred:"):i] + "#0" + sym[i:]
+			if d, ok := r.decision(alt); ok {
+				d.Sym = sym
+				return d, true
+			}
+		}
+	}
 	// a type assertion question "A:<value>:<kind>" is also answered by a type switch over that value
 	// ("K:<value>:<kind>,<kind>,..."): yes (0) when the switch took that kind's arm, no (1) when the kind was listed and
 	// another arm (or none) was taken
